@@ -10,8 +10,9 @@ For every read of the history:
      coding its `Content-Encoding` names, under a Content-Type whose media type is the registered key
      of that writer (parameters may follow; an absent Content-Type means the default request content
      type) reads back equal to the value written;
-  3. a broken declared coding (the decompressor's stream does not end cleanly) yields an error;
-     broken syntax for the selected reader yields an error;
+  3. a broken declared coding (the decompressor's stream does not end cleanly — wherever it
+     breaks, also after a complete document) yields an error; broken syntax for the selected
+     reader yields an error;
   4. history independence: the result equals the result of the same request read alone on a
      provider fresh from its constructor;
   5. ledger: a pooled reader is acquired at most once, released exactly once if acquired, and the
@@ -99,8 +100,10 @@ def brokenSyntaxOK (cfg : Cfg) (r : ReadObs) : Bool :=
 def readHolds (cfg : Cfg) (r : ReadObs) : Bool :=
   r.real != .panic && roundTripOK cfg r && brokenCodingOK r && brokenSyntaxOK cfg r && r.real == r.alone && ledgerOK r.events
 
-/-- F61 on an observation: the declared coding's stream breaks after a complete document for a
-    selectable reader was delivered -/
+/-- the class of the REPAIRED finding F61 on an observation: the declared coding's stream breaks
+    after a complete document for a selectable reader was delivered.  Excuses nothing
+    (`brokenCodingOK` demands the error there as everywhere); the driver reports it so that the
+    check can measure that its stream keeps visiting the class. -/
 def f61 (cfg : Cfg) (r : ReadObs) : Bool :=
   !r.facts.clean && (accessorsFor cfg r.ct).any r.facts.doc
 
